@@ -21,8 +21,9 @@ PROP = {
         {"name": "casts", "src": "casts.cpp", "flags": ["-O1", "-g"], "modes": ["mix"], "driver": "mmdrv_cast",
          "programs": {"quick": 6400, "thorough": 480000}},
     ],
+    "hooks": ["count_nonintegral_casts"],
     "trusted_base": TRUSTED_COMMON + [
-        "byte-address semantics of typed pointers (T* + k = byte address + k*sizeof(T)); sizeof(S4)=32, sizeof(complex<double>)=16, sizeof(int)=sizeof(unsigned)=4 (static_assert in the harness)",
+        "byte-address semantics of typed pointers (T* + k = byte address + k*sizeof(T)); sizeof(S4)=32, sizeof(S3)=24, sizeof(complex<double>)=16, sizeof(int)=sizeof(unsigned)=4 (static_assert in the harness)",
         "elements()/uninitialized_copy_n visit the source in canonical order (that is C02/C03); the model of array(view) takes that order as given",
     ],
     "assumptions": [
@@ -31,8 +32,8 @@ PROP = {
         "index arithmetic does not overflow ptrdiff_t; raw pointers",
         "as_const / const_array_cast exist only for D > 1 at this commit (the D = 1 specialisation has static_array_cast only)",
     ],
-    "rule": ("programs = element kind (struct of 4 doubles | complex<double> | int) + root extents (D 1..4, sizes 0..6, <= 200 elements, index bases -3..3 in half of the programs) + 0..5 in-domain view "
-             "operations drawn from the real view's current shape + 1..5 projection queries (member_cast to each member, reinterpret_array_cast<U>() and <U>(n), "
+    "rule": ("programs = element kind (struct of 4 doubles | struct of 3 doubles | complex<double> | int) + root extents (D 1..4, sizes 0..6, <= 200 elements, index bases -3..3 in half of the programs) + 0..5 in-domain view "
+             "operations drawn from the real view's current shape + 1..5 projection queries (member_cast to each member, reinterpret_array_cast<U>() and <U>(n), reinterpret_array_cast<U>() with NON-integral size ratios (24 <-> 16 bytes: 70% of the 24-byte programs and 35% of the complex programs give every dimension strides and offsets divisible by 2 resp. 3, so that the cast is admissible; it is only emitted when the library's own assertions hold), "
              "static/const casts, blas::real/imag, element_transformed with value and reference functors incl. access-time and write-through probes, array construction "
              "from each); distinct = different program text; non-trivial = some projection answer with >= 2 elements"),
     "level_text": "Theorems (all D, all well-formed views with arbitrary index bases, all element sizes with the code's divisibility assertion, all index tuples, all memory states): member_cast designates the byte at offsetof(member) inside each source element; reinterpret_array_cast<U>() keeps every element's first byte and reinterpret_array_cast<U>(n) appends a dimension [0,n) whose j-th element is at +j*sizeof(U), tiling the source element; static/const casts are the identity on layout and pointer; element_transformed(f)[idx] = f(source[idx]) for every memory state (hence at access time) and a reference functor writes exactly the designated object; every same-rank cast commutes with every operation of the view algebra (via C01.op_refines) and the rank-raising cast composes on both sides; array(view) has the view's extents and data[rowMajor idx] = conv(view[idx]). The model is tied to /repo by a differential run over generated views (byte offsets and values of every projected element).",
@@ -61,3 +62,31 @@ def finding_key(program, impl_lines, model_lines):
             kind = (a.split() or ["?"])[0]
             break
     return f"C12:{'+'.join(kinds)}:{'+'.join(xs)}:{kind}"
+
+
+def count_nonintegral_casts(ctx):
+    """how many admissible reinterpret_array_cast<U>() with a non-integral size ratio (24 <-> 16 bytes) the run performed, by rank of
+    the source view and emptiness; a generator that stops reaching them (a seeded change of layout_t::scale was once missed for that
+    reason) is reported"""
+    import glob, os
+    counts = {}
+    total = nonempty = d2 = 0
+    for f in glob.glob(os.path.join(ctx["build"], "impl.casts.*.out")):
+        for l in open(f, errors="replace"):
+            if l.startswith("reintq ") or l.startswith("ctorq "):
+                w = l.split("|")
+                tag, rank = w[0].split()[0], int(w[0].split()[1])
+                n = int(w[2].split()[0]) if len(w) > 2 and w[2].split() else 0
+                key = f"{tag} D={rank} {'empty' if n == 0 else 'nonempty'}"
+                counts[key] = counts.get(key, 0) + 1
+                total += 1
+                if n > 0:
+                    nonempty += 1
+                    if rank >= 2:
+                        d2 += 1
+    stats = {"nonintegral_casts": total, "nonempty": nonempty, "nonempty_rank_ge_2": d2, "by_class": dict(sorted(counts.items()))}
+    floor = 200 if ctx.get("tier") == "quick" else 2000
+    if d2 < floor:
+        return {"violations": [{"key": "C12:generator:nonintegral-casts-not-reached", "what": f"only {d2} non-empty non-integral reinterpret_array_cast<U>() on views of rank >= 2 were generated (floor {floor}): the correspondence run no longer exercises layout_t::scale with non-integral ratios"}],
+                "stats": stats, "obligations": 1, "discharged": 0}
+    return {"violations": [], "stats": stats, "obligations": 1, "discharged": 1}
